@@ -73,6 +73,10 @@ def subunit_close(ctx, T, rng, n):
 def run(ctx: core.Ctx):
     ctx.lean_stage(extra_props=("Tie", "L4Live"))
     b2check.run_b2(ctx, jobs, ["C16"], label="lifecycle scenarios")
+    # exhaustive within a bound: every schedule up to 3 (thorough: 5) deviations from the canonical one, on small scenarios
+    _small = gen.small_scenarios()
+    b2check.run_systematic(ctx, [_small[n] for n in ['close-in-callback', 'concurrent-close', 'link-drop', 'reg-in-callback']], ["C16"], depth=5 if ctx.tier == "thorough" else 3,
+                           label="close-in-callback, concurrent-close, link-drop, reg-in-callback", max_runs=60000 if ctx.tier == "thorough" else 6000)
     T = core.tables()
     subunit_close(ctx, T, ctx.rng, 4000 if ctx.tier == "thorough" else 200)
     b2check.run_b2(ctx, lambda rng, th: [(gen.api_close_race(rng, T), rng.randrange(10 ** 9), rng.choice([0, 0, 3])) for _ in range(6000 if th else 150)],
